@@ -11,14 +11,6 @@ does to it - preserves `J`; the `*_spec` lemmas walk through `setup`, the body a
 namespace C05
 open C04
 
-def umaskOf (um mode : Nat) : Nat := mode &&& (0o7777 ^^^ (um &&& 0o7777))
-
-/-- the permission bits of the part file's inode as determined by the events so far -/
-def modeAfter (um : Nat) (cur : Option Nat) : Ev → Option Nat
-  | .openPart _ _ md => some (umaskOf um md)
-  | .chmodPart md => some md
-  | _ => cur
-
 theorem append_singleton_inj {α} (l : List α) (x y : α) (h : l ++ [x] = l ++ [y]) : x = y := by
   simpa using h
 
